@@ -170,3 +170,25 @@ _claim("C19", "other",
        "For every real-valued point set of up to 4 points x 2 objectives (3 objectives up to 3 points; thorough 5 points) and every sign vector the real filter is proved "
        "to mark exactly the non-dominated points (soundness and completeness, mask == index form), path-exhaustively; `dominates` is proved equal to its definition for "
        "nobj<=3. Distance transforms, invariances and larger sets are the bounded native ring. Two genuine defects of the distance transforms were repaired.", "")
+
+# additions made after the third seeding round (units added; same levels)
+_EXTRA = {
+    "C04": " Additive-variance clauses: var_A == population variance of the breeding values, var_a == ploidy^2 * sum u^2 p(1-p) and the Bulmer ratio are "
+           "proved bounded-symbolically (<=3 taxa x 2 markers x 2 traits) for phased, unphased and raw inputs.",
+    "C05": " The usefulness-criterion helper _calc_uc is proved (bounded shapes, all values) to be sum_k epgc_k*bv[parent_k] + intensity*sqrt(var[cross]) with the "
+           "variance factory's own, possibly unequal, expected parental contributions for 2-, 3- and 4-parent designs.",
+    "C06": " SteepestDescentSubsetHillClimber.minimize is executed with an independent symbolic objective value and constraint violation per subset (<=4 candidates, "
+           "thorough 5): it terminates, stops only where no single exchange improves (violation first, then score), never ends worse than it started, reports truthful values.",
+    "C08": " Copy methods of stochastic components that mention rng are executed on a source whose rng is global_prng with cloning stand-ins for copy/deepcopy: the copy "
+           "must be handed global_prng itself (a clone would not follow prng.seed).",
+    "C09": " The float-exactness enumeration also visits sparse very large populations (up to 2e6 taxa, thorough 6e7) where a frequency one copy away from 0 or 1 is "
+           "within 1e-5 (1e-8) of it.",
+    "C12": " The usefulness-criterion helper _calc_uc is proved bounded-symbolically to be the expected-parental-contribution mean plus intensity times the square root "
+           "of the variance of that cross.",
+    "C18": " _calc_ohvmat == ploidy * sum over blocks of the best haplotype among the cross's parents, bounding every block-wise doubled haploid, chunk-invariant, and "
+           "haplomat's block values (which conserve the additive value) are proved bounded-symbolically for all block values / alleles / effects.",
+    "C19": " Both trans_ndpt_to_vec_dist implementations are proved (fronts of <=2 points x 2 objectives, thorough 3; coordinates symbolic) to return the distance of the "
+           "range-normalised weighted point to the preference ray, every positive range being rescaled however small and exactly constant objectives contributing 0.",
+}
+for _k, _v in _EXTRA.items():
+    CLAIMED[_k]["text"] += _v
